@@ -5,6 +5,8 @@ CONSTANTS
   Free = TRUE
   ReportMeansDead = FALSE
   RemDeadMeansDead = FALSE
+  CacheDeadOnFalse = FALSE
+  RebuildRaises = FALSE
   Hist = FALSE
   Cases <- FreeCases
 INVARIANT TypeOK
@@ -12,6 +14,7 @@ INVARIANT Inv_Truthful
 INVARIANT Inv_DeadFast
 INVARIANT Inv_Force
 INVARIANT Inv_Stable
+INVARIANT Inv_Returns
 INVARIANT Inv_NoSelfKill
 PROPERTY Live_Returns
 CHECK_DEADLOCK FALSE
